@@ -29,14 +29,21 @@ def case_strategy(draw, name):
               aseed=draw(st.integers(0, 999)), seed=draw(st.integers(0, 999)),
               logsparsity=draw(st.floats(-3, 0, allow_nan=False)),
               beyond=draw(st.integers(0, 4)) == 0, frac=draw(st.floats(0.02, 0.5, allow_nan=False)),
-              over=draw(st.floats(1.2, 10, allow_nan=False)))
+              over=draw(st.floats(1.2, 10, allow_nan=False)), coarse=draw(st.integers(0, 3)) == 0)
 
 
 def check_c13(case, stats):
   name = case['est']
   data = gen.Data(case['desc'])
   d = data.d
+  if case.get('coarse'):
+    # points on a coarse grid: distinct points share single coordinates, pairs share points
+    step = float(np.abs(data.X).max()) / 4.0
+    data.X = np.round(data.X / step) * step
+    data._c = {}
   prior = gen.spd_from_seed(d, case['aseed']) if case['prior'] == 'array' else case['prior']
+  if isinstance(prior, np.ndarray) and case['aseed'] % 3 == 0:
+    prior = np.asfortranarray(prior)        # memory layout is not part of the matrix
   lam = 10.0 ** case['logsparsity']
   params = dict(prior=prior, sparsity_param=lam, random_state=case['seed'])
   if name == 'SDML_Supervised':
